@@ -34,8 +34,18 @@ func funcsWithProp(env *Env, prop string) []*contract.Func {
 func genStandard(env *Env, prop string, opaque bool, extra func(ex *symex.Exec, fc *contract.Func, g *Gen) bool) *Gen {
 	g := newGen()
 	g.done = map[string]bool{}
+	g.prop = prop
+	g.dependsOn = dependsOn[prop]
 	g.waves(env, prop, opaque, extra, funcsWithProp(env, prop), false)
 	return g
+}
+
+// dependsOn: sub-systems that a property's functions call through contracts which are
+// discharged by another property's check (instead of being re-verified in a dependency
+// wave): the directives parse and resolve a profile file (C13) before they build rules.
+var dependsOn = map[string]map[string]string{
+	"C07": {"C13": "Exec.Apply resolves the @{exec_path} of the named profiles through Resolve"},
+	"C02": {"C13": "Exec.Apply resolves the @{exec_path} of the named profiles through Resolve"},
 }
 
 // waves verifies fcs, then (dependency waves) every contract used by the obligations
@@ -199,6 +209,11 @@ func (g *Gen) pendingDeps(env *Env, done map[string]bool) []*contract.Func {
 		}
 		done[k] = true
 		if fc := env.CS.Funcs[k]; fc != nil && !fc.Flags["trusted"] && !fc.Flags["inline"] {
+			if dep := firstProp(fc); g.dependsOn[dep] != "" && !hasProp(fc, g.prop) {
+				// a whole sub-system under another property (its own check discharges it)
+				g.Assumptions = append(g.Assumptions, "contract of "+fc.Name+" is used as discharged by the check of "+dep+" ("+g.dependsOn[dep]+")")
+				continue
+			}
 			next = append(next, fc)
 		}
 	}
@@ -268,6 +283,15 @@ func identLaws(env *Env, g *Gen) {
 
 // properties whose obligations compare strings by equality only
 var opaqueProps = map[string]bool{"C10": true}
+
+func hasProp(fc *contract.Func, prop string) bool {
+	for _, p := range strings.Split(fc.Opts["prop"], ",") {
+		if strings.TrimSpace(p) == prop {
+			return true
+		}
+	}
+	return false
+}
 
 func firstProp(fc *contract.Func) string {
 	return strings.TrimSpace(strings.Split(fc.Opts["prop"], ",")[0])
